@@ -178,6 +178,20 @@ func (fx *FnExec) staticCall(st *State, fn *ssa.Function, args, bindings []*Term
 			}
 		}
 	}
+	// strings.TrimPrefix with a constant prefix: the result is the very slice of the argument (exact term, so that
+	// facts about s[len(prefix):] carry over without string extensionality)
+	if fn.String() == "strings.TrimPrefix" && len(args) == 2 {
+		if pre, ok := constStringOf(args[1]); ok {
+			s := args[0]
+			n := IntLit(int64(len(pre)))
+			conds := []*Term{Le(n, StrLen(s))}
+			for i := 0; i < len(pre); i++ {
+				conds = append(conds, Eq(Select(StrArr(s), IntLit(int64(i))), IntLit(int64(pre[i]))))
+			}
+			fx.trusted("strings.TrimPrefix(s, c) for a constant c: s[len(c):] when s starts with c, else s (package documentation)")
+			return []*Term{Ite(And(conds...), MkStr(Shl(StrArr(s), n), Sub(StrLen(s), n)), s)}
+		}
+	}
 	// synthetic wrappers/thunks: resolve promoted methods to the underlying method
 	if con := fx.e.cons[fn]; con != nil && con.Pure {
 		res := fx.pureApply(st, fn.String(), fn.Signature, nil, args, true)
@@ -1807,6 +1821,11 @@ func (fx *FnExec) opaqueCall(st *State, sig *types.Signature, name string) []*Te
 // components are materialised in st so that they survive a havoc of the whole heap.
 func (fx *FnExec) keptKeys(st *State) map[string]bool {
 	keep := map[string]bool{}
+	for k := range fx.e.pureElemHeaps {
+		if _, ok := st.heap[k]; ok {
+			keep[k] = true
+		}
+	}
 	r := fx.root()
 	if r.con == nil {
 		return keep
@@ -1874,6 +1893,9 @@ func (e *Engine) keepDesignator(fx *FnExec, pkg, g string) (map[string]Sort, err
 			sl, ok := ft.Underlying().(*types.Slice)
 			if !ok {
 				return nil, fmt.Errorf("%s is not a slice", g)
+			}
+			if _, isI := sl.Elem().Underlying().(*types.Interface); isI {
+				return nil, fmt.Errorf("%s: slices of interface values share one heap component; elems() needs a concrete element type", g)
 			}
 			n, so := fx.elemHeapName(sl.Elem())
 			return map[string]Sort{n: so}, nil
